@@ -7,6 +7,7 @@ from json_checker import And, Checker, OptionalKey
 
 CALLS = []  # (plugin kind, method name, role) appended at run time; cleared by the checks
 
+ASYM_MARGINS = (1, 0, 2, 3)  # left, up, right, down of the stub refinement plugin "verif_asym"
 _DONE = False
 
 
@@ -53,3 +54,28 @@ def install() -> None:
         def compute_semantic_segmentation(self, cv, img_left, img_right):
             CALLS.append(("semantic_segmentation", id(cv), id(img_left), id(img_right)))
             return img_left
+
+    from pandora import refinement
+    from pandora.margins.descriptors import FixedMargins
+
+    @refinement.AbstractRefinement.register_subclass("verif_asym")
+    class AsymmetricRefinement(refinement.AbstractRefinement):  # pylint: disable=unused-variable
+        """does nothing; announces margins that differ on the four sides (plugins may: FixedMargins(left, up, right, down))"""
+
+        margins = FixedMargins(*ASYM_MARGINS)
+
+        def __init__(self, **cfg):
+            self.cfg = self.check_conf(**cfg)
+            self._refinement_method_name = str(self.cfg["refinement_method"])
+
+        @staticmethod
+        def check_conf(**cfg):
+            Checker({"refinement_method": And(str, lambda x: x == "verif_asym")}).validate(cfg)
+            return cfg
+
+        def desc(self):
+            print("asymmetric-margin refinement (verification stub)")
+
+        @staticmethod
+        def refinement_method(cost, disp, measure):
+            return 0.0, cost[1], 0
